@@ -7,7 +7,8 @@
 //	R-C17-3  every serve loop of httpserver is capped; reload forwards the cap   (c17_http.go)
 //	R-C17-4  Semaphore resize bookkeeping (SetMaxCount / NewSem)                 (c17_sem.go, flow engine)
 //	R-C17-5  MQTT client-table insertion is under the broker lock and capped;
-//	         an inserted client is always run or removed                        (c17_mqtt.go, flow engine)
+//	         an inserted client is always run or removed; a delete removes only
+//	         a dead / absent / own REGISTERED entry                             (c17_mqtt.go, flow engine)
 //
 // Findings on the unchanged tree (both triaged as genuine, see /tmp/vw/C17/out):
 //
@@ -47,6 +48,19 @@
 //	M22 handleConn: b.Unlock() dropped on the refusing edge                → R-C17-5 handleConn|lock released on every exit
 //	M25 readLoop: removeClient dropped from / reordered in the deferred exit → R-C17-5 readLoop|every exit removes the client's entry
 //	M26 removeClient: RLock instead of Lock                                → R-C17-5 removeClient|deletes the entry under the write lock
+//
+// Second pass (seeded regressions):
+//
+//	A1 SetMaxCount: `s.realCapacity = n` moved into the `go func(){...}()` after the adjustment (seeded a);
+//	   A2 same store at the start of the goroutine, unlocked; A3 the READ of old moved into the goroutine;
+//	   A4 store in a deferred literal nested in the goroutine      → R-C17-4 SetMaxCount|read-modify-write in one critical section
+//	   (an immediately-invoked / deferred closure around the whole read+store stays "undecided")
+//	B1 removeClient(*Client) guarded by client.disconnected() of the CALLER (seeded b, ported);
+//	   B2 lookup through getClient() before Lock; B3 unconditional delete; B5 lookup under another key;
+//	   B6 lookup and delete in two critical sections              → R-C17-5 removeClient|delete removes only a dead or own entry
+//	B4 deleteSession: c.close() dropped before the delete        → R-C17-5 deleteSession|delete removes only a dead or own entry
+//	PB1 early-return + single-value lookup `val == nil || !val.disconnected()`; PB2 `dead := found &&
+//	   registered.disconnected()` with deferred Unlock             → silent
 //
 // Behaviour-preserving edits tried (exit 0 with the two findings registered as known):
 //
